@@ -298,3 +298,8 @@ def run(ck, F, tier):
     from ..report import Scoped
     s14 = Scoped(ck, 'C14.')
     c14.a_who_moves(s14, F); c14.e_helper_forms(s14, F)
+    # "a call that failed only for lack of data ... leaves everything unchanged": lack of data must FAIL the call unless it is the end of the data - the
+    # only condition that ends a picture early and still succeeds is io::ErrorKind::UnexpectedEof (C15's rule EK); a source that merely has nothing yet
+    # (WouldBlock, Interrupted, ...) must not be taken for the end of the picture, or a truncated picture is committed
+    from . import c15
+    c15.eof_classification(Scoped(ck, 'C15.'), F)
